@@ -6,7 +6,7 @@ CONFIG = dict(
     shrink_lists=[],
     shrink=False,
     level="proof",
-    rule=("(1) run-<template>: all 21 templates x 3 variants x random instance/iterations/seed (3 repetitions quick, 6 thorough): one "
+    rule=("(1) run-<template>: all 21 templates x 3 variants x random instance/iterations/seed (5 repetitions quick, 20 thorough): one "
           "case = sequential run, the same again, a run of the cloned configuration, the Parallel evaluator under rayon pools of "
           "1,2,3,4,8,16 threads with an objective that sleeps a pseudo-random 0-200 us per call (alternating original / cloned "
           "configuration), the 4-thread pool again with other delays, the unwrapped problem type through the shared template table, "
